@@ -558,6 +558,13 @@ def error_swallow(prog, chk):
                     e2 = next((v_ for (f_, c_, kl_), v_ in allow.items() if f_.startswith(owner + "::") and c_ == k[1] and kl_ == klass(k[2]) and v_["used"] < v_["count"]), None)
                 # a reviewed (function, callee, class) covers every site of that kind in the function: merging two
                 # copies into a helper, or a helper spliced in at several call sites, changes the number of sites only
+                if e2 is None:
+                    # the same place written in the other idiom (`unwrap_or(x)` as `match { Ok(v) => v, Err(_) => x }`):
+                    # a reviewed row of the other class, as long as it has places left
+                    other = "test" if klass(k[2]) == "default" else "default"
+                    e3 = allow.get((owner, k[1], other))
+                    if e3 is not None and e3["used"] < e3["count"]:
+                        e2 = e3
                 if e2 is not None:
                     ent = e2
                     break
